@@ -233,7 +233,7 @@ def _compare(db, chk, m):
             sctx = (S, T.TRUE, None)
             parts[lab] = {c: T.agg("sum", T.col(S, c), sctx, (T.col(S, key),)) for c in ("counts", "total_duration")}
         if R.base[0] != "concat1":
-            chk.ob(rule, f"{tag} comparison = column-wise concat of the two regrouped summaries", None if T.has_opaque(R.base) else False, where, found=T.show(R.base)[:160], accepted="pd.concat(axis=1, join='outer', keys=[control, test])")
+            chk.ob(rule, f"{tag} comparison = column-wise concat of the two regrouped summaries", None if (T.has_opaque(R.base) or "opaque" in T.show(R.base)[:40]) else False, where, found=T.show(R.base)[:160], accepted="pd.concat(axis=1, join='outer', keys=[control, test])")
             continue
         chk.ob(rule, f"{tag} outer join on the name index (names of either trace are kept)", R.base[1] == "outer", where, found=R.base[1], accepted="outer",
                why="an inner join drops added and deleted names")
